@@ -382,7 +382,7 @@ pub enum Op {
     DeleteFunc(u32),
     LocalToImport(u32),
     ImportToLocal(u32),
-    /// kind: 0 call, 1 return_call, 2 ref.func; api: 0 module iterator, 1 function modifier
+    /// kind: 0 call, 1 return_call, 2 ref.func; api: see `INJECT_APIS`
     InjectFn { owner: u32, kind: u8, target: u32, api: u8 },
     AddExportFunc(u32),
     DeleteExport(String),
@@ -397,11 +397,29 @@ pub enum Op {
     AddLocalMem,
     AddImportMem,
     DeleteMem(u32),
-    /// opclass: see `mem_probe`
-    InjectMem { owner: u32, opclass: u8, target: u32 },
+    /// opclass: see `mem_probe`; `other` is the second memory of two-memory operators (class 8);
+    /// api: see `INJECT_APIS`
+    InjectMem {
+        owner: u32,
+        opclass: u8,
+        target: u32,
+        #[serde(default)]
+        other: u32,
+        #[serde(default = "one")]
+        api: u8,
+    },
     AddExportMem(u32),
     AddData { mem: Option<u32> },
 }
+
+fn one() -> u8 {
+    1
+}
+
+/// The ways injected code reaches a function. 0/1 are the plain "before instruction 2" paths; the
+/// others put the same code at the same place through the after and alternate lists and through the
+/// function-entry special mode, which the encoder remaps and emits separately.
+pub const INJECT_APIS: &[&str] = &["iter", "modifier", "modifier-after", "modifier-alt", "iter-alt", "modifier-fn-entry", "iter-after"];
 
 impl Op {
     pub fn kind_name(&self) -> String {
@@ -411,7 +429,7 @@ impl Op {
             Op::DeleteFunc(_) => "DeleteFunc".into(),
             Op::LocalToImport(_) => "LocalToImport".into(),
             Op::ImportToLocal(_) => "ImportToLocal".into(),
-            Op::InjectFn { kind, api, .. } => format!("InjectFn.{}.{}", ["call", "return_call", "ref.func"][*kind as usize], ["iter", "modifier"][*api as usize]),
+            Op::InjectFn { kind, api, .. } => format!("InjectFn.{}.{}", ["call", "return_call", "ref.func"][*kind as usize], INJECT_APIS[*api as usize]),
             Op::AddExportFunc(_) => "AddExportFunc".into(),
             Op::DeleteExport(_) => "DeleteExport".into(),
             Op::SetFnName { api, .. } => format!("SetFnName.{}", api),
@@ -434,18 +452,24 @@ impl Op {
                     GInit::RefFunc(_) => "ref.func",
                 }
             ),
-            Op::InjectGlobal { set, api, .. } => format!("InjectGlobal.{}.{}", if *set { "set" } else { "get" }, ["iter", "modifier"][*api as usize]),
+            Op::InjectGlobal { set, api, .. } => format!("InjectGlobal.{}.{}", if *set { "set" } else { "get" }, INJECT_APIS[*api as usize]),
             Op::AddLocalMem => "AddLocalMem".into(),
             Op::AddImportMem => "AddImportMem".into(),
             Op::DeleteMem(_) => "DeleteMem".into(),
-            Op::InjectMem { opclass, .. } => format!("InjectMem.{}", MEM_PROBES[*opclass as usize]),
+            Op::InjectMem { opclass, api, .. } => {
+                if *api == 1 {
+                    format!("InjectMem.{}", MEM_PROBES[*opclass as usize])
+                } else {
+                    format!("InjectMem.{}.{}", MEM_PROBES[*opclass as usize], INJECT_APIS[*api as usize])
+                }
+            }
             Op::AddExportMem(_) => "AddExportMem".into(),
             Op::AddData { mem } => format!("AddData.{}", if mem.is_some() { "active" } else { "passive" }),
         }
     }
 }
 
-pub const MEM_PROBES: &[&str] = &["i32.load", "memory.size", "memory.copy", "i32.atomic.rmw.add", "v128.load", "i64.atomic.load", "memory.fill", "i32.store8"];
+pub const MEM_PROBES: &[&str] = &["i32.load", "memory.size", "memory.copy", "i32.atomic.rmw.add", "v128.load", "i64.atomic.load", "memory.fill", "i32.store8", "memory.copy.cross"];
 
 fn memarg(mem: u32, align: u8) -> MemArg {
     MemArg { align, max_align: align, offset: 0, memory: mem }
@@ -453,7 +477,7 @@ fn memarg(mem: u32, align: u8) -> MemArg {
 
 /// Self-contained, stack-neutral instruction sequence that references memory `h` once:
 /// (operands, the memory instruction, clean-up).
-fn mem_probe<'a>(opclass: u8, h: u32) -> (Vec<Operator<'a>>, Operator<'a>, Vec<Operator<'a>>) {
+fn mem_probe<'a>(opclass: u8, h: u32, other: u32) -> (Vec<Operator<'a>>, Operator<'a>, Vec<Operator<'a>>) {
     use Operator::*;
     let c = |v: i32| I32Const { value: v };
     match opclass {
@@ -464,34 +488,90 @@ fn mem_probe<'a>(opclass: u8, h: u32) -> (Vec<Operator<'a>>, Operator<'a>, Vec<O
         4 => (vec![c(0)], V128Load { memarg: memarg(h, 4) }, vec![Drop]),
         5 => (vec![c(0)], I64AtomicLoad { memarg: memarg(h, 3) }, vec![Drop]),
         6 => (vec![c(0), c(0), c(0)], MemoryFill { mem: h }, vec![]),
-        _ => (vec![c(0), c(0)], I32Store8 { memarg: memarg(h, 0) }, vec![]),
+        7 => (vec![c(0), c(0)], I32Store8 { memarg: memarg(h, 0) }, vec![]),
+        _ => (vec![c(0), c(0), c(0)], MemoryCopy { dst_mem: h, src_mem: other }, vec![]),
     }
 }
 
-/// Inject `ops` before instruction 2 of function `owner` (instructions 0,1 are its identity marker).
+/// Inject `ops` into function `owner` right after its identity marker (instructions 0,1), through the
+/// API path `api` (see `INJECT_APIS`). Every path puts the code at the same place of the encoded
+/// function (between the marker and instruction 2) - except the function-entry mode, which puts it in
+/// front of the marker; the decoder finds markers and sites wherever they are.
 fn inject_before<'a>(module: &mut Module<'a>, owner: u32, api: u8, ops: Vec<Operator<'a>>) {
-    let loc = Location::Module { func_idx: FunctionID(owner), instr_idx: 2 };
-    if api == 0 {
-        let mut it = ModuleIterator::new(module, &vec![]);
-        loop {
-            if let (Location::Module { func_idx, instr_idx }, _) = it.curr_loc() {
-                if *func_idx == owner && instr_idx == 2 {
-                    break;
-                }
-            }
-            if it.next().is_none() {
-                panic!("harness: iterator never reached function {} instruction 2", owner);
+    let at = |i: usize| Location::Module { func_idx: FunctionID(owner), instr_idx: i };
+    let walk_to = |it: &mut ModuleIterator, idx: usize| loop {
+        if let (Location::Module { func_idx, instr_idx }, _) = it.curr_loc() {
+            if *func_idx == owner && instr_idx == idx {
+                break;
             }
         }
-        it.before();
-        for op in ops {
-            it.inject(op);
+        if it.next().is_none() {
+            panic!("harness: iterator never reached function {} instruction {}", owner, idx);
         }
-    } else {
-        let mut fm = module.functions.get_fn_modifier(FunctionID(owner)).expect("harness: owner is a local function");
-        fm.before_at(loc);
-        for op in ops {
-            fm.inject(op);
+    };
+    // the alternate of the marker's `drop` starts with that `drop` - once
+    let alt_started = module.functions.get(FunctionID(owner)).unwrap_local().body.instructions[1].instr_flag.alternate.is_some();
+    match api {
+        0 => {
+            let mut it = ModuleIterator::new(module, &vec![]);
+            walk_to(&mut it, 2);
+            it.before();
+            for op in ops {
+                it.inject(op);
+            }
+        }
+        1 => {
+            let mut fm = module.functions.get_fn_modifier(FunctionID(owner)).expect("harness: owner is a local function");
+            fm.before_at(at(2));
+            for op in ops {
+                fm.inject(op);
+            }
+        }
+        2 => {
+            // after the marker's `drop`
+            let mut fm = module.functions.get_fn_modifier(FunctionID(owner)).expect("harness: owner is a local function");
+            fm.after_at(at(1));
+            for op in ops {
+                fm.inject(op);
+            }
+        }
+        3 => {
+            // replace the marker's `drop` by `drop; ops`
+            let mut fm = module.functions.get_fn_modifier(FunctionID(owner)).expect("harness: owner is a local function");
+            fm.alternate_at(at(1));
+            if !alt_started {
+                fm.inject(Operator::Drop);
+            }
+            for op in ops {
+                fm.inject(op);
+            }
+        }
+        4 => {
+            let mut it = ModuleIterator::new(module, &vec![]);
+            walk_to(&mut it, 1);
+            it.alternate();
+            if !alt_started {
+                it.inject(Operator::Drop);
+            }
+            for op in ops {
+                it.inject(op);
+            }
+        }
+        5 => {
+            let mut fm = module.functions.get_fn_modifier(FunctionID(owner)).expect("harness: owner is a local function");
+            fm.func_entry();
+            for op in ops {
+                fm.inject(op);
+            }
+            fm.finish_instr();
+        }
+        _ => {
+            let mut it = ModuleIterator::new(module, &vec![]);
+            walk_to(&mut it, 1);
+            it.after();
+            for op in ops {
+                it.inject(op);
+            }
         }
     }
 }
@@ -728,16 +808,16 @@ pub fn apply<'a>(op: &Op, module: &mut Module<'a>, model: &mut Model) {
                 m.live = false;
             }
         }
-        Op::InjectMem { owner, opclass, target } => {
+        Op::InjectMem { owner, opclass, target, other, api } => {
             let s = model.next_site;
             model.next_site += 1;
-            let (pre, mem_op, post) = mem_probe(*opclass, *target);
+            let (pre, mem_op, post) = mem_probe(*opclass, *target, *other);
             let mut ops = pre;
             ops.push(Operator::I32Const { value: SITE_MARK + s as i32 });
             ops.push(Operator::Drop);
             ops.push(mem_op.clone());
             ops.extend(post);
-            inject_before(module, *owner, 1, ops);
+            inject_before(module, *owner, *api, ops);
             let (name, refs) = op_refs(&mem_op);
             if let Some(f) = model.func_mut(*owner) {
                 f.sites.push(MSite { id: s, op: name, refs });
